@@ -587,6 +587,33 @@ func (e *Env) call(n *ast.CallExpr) Val {
 			return Val{Sort: "Str", Term: name}
 		}
 		return Val{Sort: "Str", Term: fmt.Sprintf("(%s %s)", name, strings.Join(terms, " "))}
+	case "marshal": // marshal(x): the protobuf encoding of a struct value (same uninterpreted function as the codec model)
+		need(1)
+		v := e.tr(args[0])
+		if v.Ptr != nil {
+			v = e.deref(v, "marshal")
+		}
+		g.useTheory("kv")
+		m := "marshal_" + mangle(v.Sort)
+		if _, ok := g.ufDecl[m]; !ok {
+			g.uf(m, []string{v.Sort}, "Str")
+			g.uf("un"+m, []string{"Str"}, v.Sort)
+			g.emit(fmt.Sprintf("(assert (forall ((x %s)) (! (and (= (un%s (%s x)) x) (not (= (%s x) Bytes_nil))) :pattern ((%s x)))))", v.Sort, m, m, m, m))
+		}
+		return Val{Sort: "Str", Term: fmt.Sprintf("(%s %s)", m, v.Term)}
+	case "unmarshal": // unmarshal("Sort", bytes)
+		need(2)
+		srt, _ := strconv.Unquote(args[0].(*ast.BasicLit).Value)
+		g.ensureSortNames(srt)
+		b := e.tr(args[1])
+		g.useTheory("kv")
+		m := "marshal_" + mangle(srt)
+		if _, ok := g.ufDecl[m]; !ok {
+			g.uf(m, []string{srt}, "Str")
+			g.uf("un"+m, []string{"Str"}, srt)
+			g.emit(fmt.Sprintf("(assert (forall ((x %s)) (! (and (= (un%s (%s x)) x) (not (= (%s x) Bytes_nil))) :pattern ((%s x)))))", srt, m, m, m, m))
+		}
+		return Val{Sort: srt, Term: fmt.Sprintf("(un%s %s)", m, b.Term)}
 	case "zero": // zero("Sort")
 		need(1)
 		srt, _ := strconv.Unquote(args[0].(*ast.BasicLit).Value)
